@@ -58,3 +58,17 @@ package webrtc
 //@ loop 2 break false
 //@ loop 2 step loophead(pc.greaterMid) != 9223372036854775807 ==> loophead(pc.greaterMid) <= pc.greaterMid
 //@ loop 2 step specMidIsNumeric(t.Mid()) && loophead(pc.greaterMid) != 9223372036854775807 ==> specMidNumber(t.Mid()) <= pc.greaterMid
+
+// C06: the mid chosen for a data section that an offer adds (against a remote description)
+// differs from the mid of every section already in the list. The shipped formula is the decimal
+// of the section's position; it collides when an earlier section carries that very number as
+// its mid (remote mids 0 and 2, then a data channel: 0 2 2) — recorded as a known finding with
+// exactly that input class, so that any other way of reusing a mid is still reported.
+//@ func (*PeerConnection).generateMatchedSDP #datamid
+//@ props C06 C09
+//@ timeout 40
+//@ nosafety
+//@ requires pcValid(pc) && includeUnmatched && pc.sctpTransport != nil
+// (stated for an arbitrary fixed earlier position w = ufint("midWitness"): an uninterpreted
+// constant, so the clause holds for every position and the obligations stay ground)
+//@ atcall (Certificate).GetFingerprints assert !detectedPlanB && !alreadyHaveApplicationMediaSection && (pc.configuration.AlwaysNegotiateDataChannels || pc.sctpTransport.dataChannelsRequested != 0) ==> len(mediaSections) >= 1 && mediaSections[len(mediaSections)-1].data && (0 <= ufint("midWitness") && ufint("midWitness") < len(mediaSections)-1 ==> mediaSections[ufint("midWitness")].id != mediaSections[len(mediaSections)-1].id)
